@@ -669,8 +669,9 @@ def main(tier="quick", seed=0):
 
     def run_mc():
         try:
-            mc["res"] = _tlc.model_check("MC_Classify", "MC_Classify.cfg" if quick else "MC_Classify_thorough.cfg",
-                                         workers=8 if quick else 16)
+            mc["res"] = [_tlc.model_check("MC_Classify", "MC_Classify.cfg", workers=8)]
+            if not quick:   # full cost-value range for K = 3 (with frequencies over {0,1})
+                mc["res"].append(_tlc.model_check("MC_Classify", "MC_Classify_thorough.cfg", workers=12))
         except BaseException as ex:  # noqa: BLE001 - re-raised in the main thread
             mc["err"] = ex
 
@@ -714,12 +715,11 @@ def main(tier="quick", seed=0):
     th.join()
     if "err" in mc:
         raise mc["err"]
-    res = mc["res"]
-    chk.states += res.distinct
-    chk.transitions += res.generated
-    chk.mc_runs.append({"module": "MC_Classify", "cfg": "MC_Classify.cfg" if quick else "MC_Classify_thorough.cfg",
-                        "distinct_states": res.distinct, "states_generated": res.generated,
-                        "depth": res.depth, "wall_s": round(res.wall, 2)})
+    for res, cfg in zip(mc["res"], ["MC_Classify.cfg", "MC_Classify_thorough.cfg"]):
+        chk.states += res.distinct
+        chk.transitions += res.generated
+        chk.mc_runs.append({"module": "MC_Classify", "cfg": cfg, "distinct_states": res.distinct,
+                            "states_generated": res.generated, "depth": res.depth, "wall_s": round(res.wall, 2)})
     chk.extra["traces_exact"] = len(exact)
     chk.extra["traces_numeric"] = len(num)
     chk.extra["cases_from_tlc"] = len(cases)
